@@ -103,58 +103,88 @@ fn real(c: &Value) -> Value {
             json!({"traj": traj, "run": arr_f64(&out).bits, "run2": arr_f64(&out2).bits, "long": arr_f64(&long).bits,
                    "shape": out.shape(), "final": fin})
         }
-        ("hmc", "f32") => {
-            let mut a = build_hmc::<f32, B32>(c);
-            let mut b = a.clone();
-            let mut l = a.clone();
-            let out = a.run(n, d);
-            let out2 = a.run(n2, 0);
-            let long = l.run(n + n2, d);
-            let nc = us(c, "n_chains");
-            let mut traj: Vec<Vec<Vec<u64>>> = vec![vec![]; nc];
-            let push = |traj: &mut Vec<Vec<Vec<u64>>>, pos: &Tensor<B32, 2>| {
-                let v = tensor_f64(pos);
-                let dim = v.len() / nc;
-                for ch in 0..nc { traj[ch].push(bits64(&v[ch * dim..(ch + 1) * dim])); }
-            };
-            push(&mut traj, &b.positions);
-            for _ in 0..(n + d + n2) { b.step(); push(&mut traj, &b.positions); }
-            let w = |t: &Tensor<B32, 3>| bits64(&tensor_f64(t));
-            let mut fin: Vec<Vec<Vec<u64>>> = vec![vec![]; nc];
-            push(&mut fin, &a.positions);
-            json!({"traj": traj, "run": w(&out), "run2": w(&out2), "long": w(&long), "shape": out.dims(),
-                   "final": fin.iter().map(|x| x[0].clone()).collect::<Vec<_>>()})
-        }
-        ("nuts", "f32") => {
-            // single chain: run vs init_chain + manual steps; then NUTS::run vs the individual chains' runs
-            let t = |x: f64| x as f32;
-            let target = DiffableGaussian2D::new([t(0.0), t(1.0)], [[t(4.0), t(2.0)], [t(2.0), t(3.0)]]);
-            let seed = u64f(c, "seed");
-            let nc = us(c, "n_chains");
-            let inits = init_states::<f32>(c, 2);
-            let mut traj = vec![];
-            let mut runs = vec![];
-            let mut runs2 = vec![];
-            let mut fin = vec![];
-            for (i, x0) in inits.iter().enumerate() {
-                let cs = seed.wrapping_add(i as u64).wrapping_add(1);
-                let mut a = NUTSChain::<f32, B32, _>::new(target.clone(), x0.clone(), t(0.8)).set_seed(cs);
-                let mut b = a.clone();
-                let o1 = a.run(n, d);
-                let o2 = a.run(n2.max(1), 0);
-                let mut tr = vec![bits64(&tensor_f64(&b.position))];
-                b.init_chain_verif(n, d);
-                for _ in 1..(n + d) { b.step(); tr.push(bits64(&tensor_f64(&b.position))); }
-                traj.push(tr);
-                runs.push(bits64(&tensor_f64(&o1)));
-                runs2.push(bits64(&tensor_f64(&o2)));
-                fin.push(bits64(&tensor_f64(&a.position)));
-            }
-            let mut multi = NUTS::<f32, B32, _>::new(target, inits, t(0.8)).set_seed(seed);
-            let mo = multi.run(n, d);
-            let _ = nc;
-            json!({"traj": traj, "chain_runs": runs, "chain_runs2": runs2, "multi": bits64(&tensor_f64(&mo)), "shape": mo.dims(), "final": fin})
-        }
+        ("hmc", "f32") => real_hmc::<f32, B32>(c),
+        ("hmc", "f64") => real_hmc::<f64, B64>(c),
+        ("nuts", "f32") => real_nuts::<f32, B32>(c),
+        ("nuts", "f64") => real_nuts::<f64, B64>(c),
         (k, f) => panic!("unknown real sampler {k}/{f}"),
     }
+}
+
+fn real_hmc<T, B>(c: &Value) -> Value
+where
+    T: crate::c02::Tf + rand_distr::uniform::SampleUniform + num_traits::FromPrimitive + num_traits::FloatConst + std::fmt::Debug + Send + Sync,
+    B: burn::tensor::backend::AutodiffBackend + Send,
+    rand_distr::StandardNormal: rand::distr::Distribution<T>,
+    rand_distr::StandardUniform: rand_distr::Distribution<T>,
+    rand_distr::Exp1: rand_distr::Distribution<T>,
+{
+    let (n, d) = (us(c, "n"), us(c, "d"));
+    let n2 = us(c, "n2");
+    let mut a = build_hmc::<T, B>(c);
+    let mut b = a.clone();
+    let mut l = a.clone();
+    let out = a.run(n, d);
+    let out2 = a.run(n2, 0);
+    let long = l.run(n + n2, d);
+    let nc = us(c, "n_chains");
+    let mut traj: Vec<Vec<Vec<u64>>> = vec![vec![]; nc];
+    let push = |traj: &mut Vec<Vec<Vec<u64>>>, pos: &Tensor<B, 2>| {
+        let v = tensor_f64(pos);
+        let dim = v.len() / nc;
+        for ch in 0..nc {
+            traj[ch].push(bits64(&v[ch * dim..(ch + 1) * dim]));
+        }
+    };
+    push(&mut traj, &b.positions);
+    for _ in 0..(n + d + n2) {
+        b.step();
+        push(&mut traj, &b.positions);
+    }
+    let w = |t: &Tensor<B, 3>| bits64(&tensor_f64(t));
+    let mut fin: Vec<Vec<Vec<u64>>> = vec![vec![]; nc];
+    push(&mut fin, &a.positions);
+    json!({"traj": traj, "run": w(&out), "run2": w(&out2), "long": w(&long), "shape": out.dims(),
+           "final": fin.iter().map(|x| x[0].clone()).collect::<Vec<_>>()})
+}
+
+/// single chains: run vs init_chain + manual steps; then NUTS::run vs the individual chains' runs
+fn real_nuts<T, B>(c: &Value) -> Value
+where
+    T: crate::c02::Tf + rand_distr::uniform::SampleUniform + num_traits::FromPrimitive + Send,
+    B: burn::tensor::backend::AutodiffBackend + Send,
+    rand_distr::StandardNormal: rand::distr::Distribution<T>,
+    rand_distr::StandardUniform: rand_distr::Distribution<T>,
+    rand_distr::Exp1: rand_distr::Distribution<T>,
+{
+    let (n, d) = (us(c, "n"), us(c, "d"));
+    let n2 = us(c, "n2");
+    let t = |x: f64| <T as num_traits::FromPrimitive>::from_f64(x).unwrap();
+    let target = DiffableGaussian2D::new([t(0.0), t(1.0)], [[t(4.0), t(2.0)], [t(2.0), t(3.0)]]);
+    let seed = u64f(c, "seed");
+    let inits = init_states::<T>(c, 2);
+    let mut traj = vec![];
+    let mut runs = vec![];
+    let mut runs2 = vec![];
+    let mut fin = vec![];
+    for (i, x0) in inits.iter().enumerate() {
+        let cs = seed.wrapping_add(i as u64).wrapping_add(1);
+        let mut a = NUTSChain::<T, B, _>::new(target.clone(), x0.clone(), t(0.8)).set_seed(cs);
+        let mut b = a.clone();
+        let o1 = a.run(n, d);
+        let o2 = a.run(n2.max(1), 0);
+        let mut tr = vec![bits64(&tensor_f64(&b.position))];
+        b.init_chain_verif(n, d);
+        for _ in 1..(n + d) {
+            b.step();
+            tr.push(bits64(&tensor_f64(&b.position)));
+        }
+        traj.push(tr);
+        runs.push(bits64(&tensor_f64(&o1)));
+        runs2.push(bits64(&tensor_f64(&o2)));
+        fin.push(bits64(&tensor_f64(&a.position)));
+    }
+    let mut multi = NUTS::<T, B, _>::new(target, inits, t(0.8)).set_seed(seed);
+    let mo = multi.run(n, d);
+    json!({"traj": traj, "chain_runs": runs, "chain_runs2": runs2, "multi": bits64(&tensor_f64(&mo)), "shape": mo.dims(), "final": fin})
 }
